@@ -48,6 +48,7 @@ type poolCfg struct {
 	CancelPct  int
 	Script     []poolOp // deterministic script (C07 enumeration); nil => random clients
 	FaultFree  bool
+	KernelMAC  bool // the first interface carries the MAC of the only kernel device of a fresh netns (lo)
 	SpinBal    bool // a goroutine runs balancer rounds back to back (hits the dispose / pending-request windows)
 }
 
@@ -452,6 +453,16 @@ func newPoolHist(c *ctxT, prop string, hid int, cfg poolCfg, seed int64) *poolHi
 	}
 	h.cloud = cloudsim.NewCloud(h.mon.now, cloudSlots, cfg.Cap, cfg.V4, cfg.V6)
 	h.cloud.Rng = rand.New(rand.NewSource(seed ^ 0x5eed))
+	if cfg.KernelMAC {
+		// lo is the only *netlink.Device of a fresh netns and the netlink library reports its all-zero
+		// hardware address as empty: an ENI with MAC "" resolves to a kernel device, any other MAC does not
+		h.cloud.MACFor = func(n int) (string, bool) {
+			if n == 1 {
+				return "", true
+			}
+			return "", false
+		}
+	}
 	if cfg.Faults != nil {
 		h.cloud.Plan = cfg.Faults
 	}
